@@ -11,7 +11,7 @@ CLAIMS = {
              text="totality monitor over the union of all decoder lattices plus the complete space of short byte strings; panics, stalls and allocation above 4 KiB per decode are violations", ref="3 C01", note=E1_NOTE + "; the global-allocator meter counts bytes requested per decode on the calling thread"),
  "C02": dict(cat="exploration", tech="exhaustive enumeration of 32 DF codes x buffer lengths 0..=32 x contexts x garbage tails and of every dispatch leaf (bit-walk, field sweeps) on the real decoder vs reference acceptance predicate; exact-vs-extended differential",
              text="acceptance set, length discipline and tail-independence decided on every format code, every length and every dispatch leaf under a context alphabet; payload bits beyond the alphabet are not enumerated", ref="3 C02", note=E1_NOTE),
- "C03": dict(cat="model_checking", tech="explicit-state enumeration of the checksum automaton's complete transition relation (2^24 remainders x 256 bytes, thorough; states reachable in two bytes, quick) on the real function via hook vs bit-serial division; exhaustive error-pattern enumeration (weight<=5, bursts<=24); Frame.crc on every dispatch leaf",
+ "C03": dict(cat="model_checking", tech="explicit-state enumeration of the checksum automaton's complete transition relation (2^24 remainders x 256 bytes, thorough; 2^20 three-byte prefixes, quick) on the real function via hook vs bit-serial division; exhaustive error-pattern enumeration (weight<=5, bursts<=24); Frame.crc on every dispatch leaf",
              text="complete transition relation of the table-driven remainder automaton => equality with polynomial division for all frames by induction on length; public-API checksum on every seek pattern; exhaustive low-weight/burst error patterns", ref="3 C03",
              note="trusted: bit-serial reference division; the hook re-exposes the private function unchanged; induction over length assumes the loop is a fold of one step (probed at n=7 and n=14)"),
  "C07": dict(cat="exploration", tech="exhaustive enumeration of the velocity payload lattice (all field values, joint (dir,vel,dir,vel) sweep, all 2^11 vertical-rate codes) on the real decoder and calculate() vs reference arithmetic",
